@@ -20,11 +20,15 @@ type Env struct {
 	st, old *State
 	local   func(string) (Val, bool)
 	bound   map[string]Val
+	inOld   bool
 }
 
 // contractEnv builds the environment for the function's own contract.
 func (fc *FnCtx) contractEnv(st, old *State) *Env {
-	env := &Env{fc: fc, pkg: fc.fn.Pkg.Pkg, vars: map[string]Val{}, st: st, old: old, bound: map[string]Val{}}
+	env := &Env{fc: fc, pkg: fc.pkg, vars: map[string]Val{}, st: st, old: old, bound: map[string]Val{}}
+	if fc.fn == nil {
+		return env
+	}
 	for _, p := range fc.fn.Params {
 		env.vars[p.Name()] = fc.vals[p]
 	}
@@ -202,6 +206,12 @@ func (env *Env) evalIdent(name string) Val {
 	if v, ok := env.bound[name]; ok {
 		return v
 	}
+	// locals shadow parameters (a reassigned parameter is a local at that point); old(x) means the entry value
+	if env.local != nil && !env.inOld {
+		if v, ok := env.local(name); ok {
+			return v
+		}
+	}
 	if v, ok := env.vars[name]; ok {
 		return v
 	}
@@ -234,7 +244,7 @@ func (env *Env) evalIdent(name string) Val {
 			return Val{T: c.Type(), C: c.Val()}
 		}
 	}
-	userErr("unknown identifier %q in contract of %s", name, fc.eng.fnName(fc.fn))
+	userErr("unknown identifier %q in contract of %s", name, fc.name)
 	return Val{}
 }
 
@@ -381,9 +391,16 @@ func (env *Env) binary(op token.Token, a, b Val) Val {
 		}
 	}
 	if bt, ok := a.T.(*types.Basic); ok && bt.Kind() == types.UntypedNil {
-		a = zeroVal(b.T)
+		a, b = b, a
 	}
 	if bt, ok := b.T.(*types.Basic); ok && bt.Kind() == types.UntypedNil {
+		if _, isPtr := a.T.Underlying().(*types.Pointer); isPtr && (op == token.EQL || op == token.NEQ) {
+			r := ptrNonNil(a)
+			if op == token.EQL {
+				r = not(r)
+			}
+			return boolVal(r)
+		}
 		b = zeroVal(a.T)
 	}
 	// slices compared for identity in specs
@@ -491,6 +508,7 @@ func (env *Env) evalCall(x *ast.CallExpr) Val {
 			userErr("len of %s", v.T)
 		case "old":
 			e2 := env.withState(env.old)
+			e2.inOld = true
 			return e2.eval(x.Args[0])
 		case "typeis":
 			v := env.eval(x.Args[0])
